@@ -9,8 +9,9 @@ package shard
 //
 //   - an object is REMOVED once (a) its removal was requested – a tombstone for it was
 //     accepted, it was dropped (Shard.Delete) or marked as garbage –, (b) a removal
-//     procedure then worked on it (the drop itself; for tombstoned / marked objects a GC
-//     pass that ran, or was cut by a crash, after the request) and (c) afterwards the node
+//     procedure then worked on it while the node still held a metadata record of it (the
+//     drop itself; for tombstoned / marked objects a GC pass that ran, or was cut by a
+//     crash, after the request) and (c) afterwards the node
 //     was observed to hold no metadata record of it and to refuse every metadata-aware
 //     read of it;
 //   - from then on, until a Put of that object is accepted again, no step of the history
@@ -64,6 +65,49 @@ type vf09NoPayments struct{}
 func (vf09NoPayments) PaymentsDisabled() bool            { return true }
 func (vf09NoPayments) UnpaidSince(cid.ID) (int64, error) { return -1, nil }
 
+// vf09Gate keeps the write-cache's own flush scheduler parked at its hand-off point unless
+// the monitor lets it run: the sequential and crash parts must not contain accidental
+// flush-versus-delete interleavings (those are constructed, and judged, in the race part).
+type vf09Gate struct {
+	mu   sync.Mutex
+	open bool
+	ch   chan struct{}
+}
+
+func vf09NewGate(h *verifkit.Hooks, also func()) *vf09Gate {
+	g := &vf09Gate{ch: make(chan struct{})}
+	h.OnPoint(func(name string, _ int) {
+		if also != nil {
+			also()
+		}
+		if name == "writecache.sched.handoff" {
+			g.wait()
+		}
+	})
+	return g
+}
+
+func (g *vf09Gate) wait() {
+	for {
+		g.mu.Lock()
+		if g.open {
+			g.mu.Unlock()
+			return
+		}
+		ch := g.ch
+		g.mu.Unlock()
+		<-ch
+	}
+}
+
+func (g *vf09Gate) set(open bool) {
+	g.mu.Lock()
+	g.open = open
+	close(g.ch)
+	g.ch = make(chan struct{})
+	g.mu.Unlock()
+}
+
 // vf09Universe is the serialisable description of the objects of one history.
 type vf09Universe struct {
 	Objects [][]byte `json:"objects"`
@@ -90,7 +134,8 @@ func (o vf09Op) String() string {
 // vf09Model is the oracle's whole memory.
 type vf09Model struct {
 	Req     []string `json:"req"`     // "", "tombstoned", "dropped", "marked": why removal was requested (since the last accepted put)
-	Proc    []bool   `json:"proc"`    // a removal procedure worked on it after the request (drop itself / a GC pass)
+	Rec     []bool   `json:"rec"`     // the node held a metadata record of it at the last observation
+	Proc    []bool   `json:"proc"`    // a removal procedure worked on it after the request (drop itself / a GC pass) while it had a record
 	Removed []bool   `json:"removed"` // observed removed (see file comment)
 	Since   []string `json:"since"`   // step after which it was observed removed
 	Epoch   uint64   `json:"epoch"`
@@ -114,6 +159,7 @@ type vf09World struct {
 	count    func(string, int)
 	seen     func(string, string)
 	guard    func(any, func()) bool
+	gate     *vf09Gate // nil: the background flusher runs freely
 }
 
 func vf09GenUniverse(r *verifkit.Run, stream string, idx, n int) vf09Universe {
@@ -150,7 +196,7 @@ func vf09NewWorld(scenario, dir string, wc bool, thr uint64, bcount int, syncIO 
 		}
 		w.objs, w.tombs = append(w.objs, o), append(w.tombs, ts)
 	}
-	w.m = vf09Model{Req: make([]string, len(u.Objects)), Proc: make([]bool, len(u.Objects)), Removed: make([]bool, len(u.Objects)), Since: make([]string, len(u.Objects))}
+	w.m = vf09Model{Req: make([]string, len(u.Objects)), Rec: make([]bool, len(u.Objects)), Proc: make([]bool, len(u.Objects)), Removed: make([]bool, len(u.Objects)), Since: make([]string, len(u.Objects))}
 	w.count = func(string, int) {}
 	w.seen = func(string, string) {}
 	w.guard = func(_ any, f func()) bool { f(); return false }
@@ -197,11 +243,17 @@ func (w *vf09World) open() error {
 	}
 	sh.gc.currentEpoch.Store(w.ep.CurrentEpoch())
 	w.sh = sh
+	if w.gate != nil {
+		w.gate.set(false)
+	}
 	return nil
 }
 
 func (w *vf09World) close() {
 	if w.sh != nil {
+		if w.gate != nil {
+			w.gate.set(true) // a parked scheduler must be able to leave
+		}
 		_ = w.sh.Close()
 		w.sh = nil
 	}
@@ -341,7 +393,7 @@ func (w *vf09World) request(i int, how string) {
 	if w.m.Req[i] == "" {
 		w.m.Req[i] = how
 	}
-	if how == "dropped" { // the drop is itself the removal procedure
+	if how == "dropped" && w.m.Rec[i] { // the drop is itself the removal procedure
 		w.m.Proc[i] = true
 	}
 }
@@ -349,7 +401,7 @@ func (w *vf09World) request(i int, how string) {
 // gcWorks notes that a GC pass works on everything whose removal was requested so far.
 func (w *vf09World) gcWorks() {
 	for i := range w.m.Req {
-		if w.m.Req[i] != "" {
+		if w.m.Req[i] != "" && w.m.Rec[i] {
 			w.m.Proc[i] = true
 		}
 	}
@@ -437,6 +489,7 @@ func (w *vf09World) observe(after, extra string) {
 			w.count("objects_observed_removed", 1)
 			w.seen("removed_by", w.m.Req[i])
 		}
+		w.m.Rec[i] = !gone
 		if w.m.Removed[i] {
 			w.count("observations_of_removed_objects_still_unreadable", 1)
 			w.seen("steps_survived_by_removed_objects", after)
@@ -501,7 +554,11 @@ func TestVerif_C09(t *testing.T) {
 	if base == "" {
 		base = t.TempDir()
 	}
-	nHist := r.Pick(60, 900)
+	nHist := r.Pick(60, 600)
+	h := verifkit.InstallHooks()
+	defer h.Uninstall()
+	gate := vf09NewGate(h, nil)
+	defer gate.set(true)
 	for idx := 0; idx < nHist; idx++ {
 		rng := r.Rand("seq", idx)
 		n := 4 + rng.IntN(3)
@@ -518,6 +575,7 @@ func TestVerif_C09(t *testing.T) {
 			return
 		}
 		w.attach(r)
+		w.gate = gate
 		if err := w.open(); err != nil {
 			r.Inconclusive("open: " + err.Error())
 			return
@@ -759,6 +817,9 @@ func vf09Child(specPath string) {
 		fmt.Println("child: world:", err)
 		os.Exit(4)
 	}
+	h := verifkit.InstallHooks()
+	var hits atomic.Int64
+	w.gate = vf09NewGate(h, func() { hits.Add(1) })
 	if err := w.open(); err != nil {
 		fmt.Println("child: open:", err)
 		os.Exit(4)
@@ -768,9 +829,6 @@ func vf09Child(specPath string) {
 		fmt.Println("child: journal:", err)
 		os.Exit(4)
 	}
-	h := verifkit.InstallHooks()
-	var hits atomic.Int64
-	h.OnPoint(func(string, int) { hits.Add(1) })
 	if sp.CrashName != "" {
 		h.CrashAt(sp.CrashName, sp.CrashK)
 	}
@@ -779,18 +837,20 @@ func vf09Child(specPath string) {
 		res := "ok"
 		if op.Kind == "bgflush" {
 			// let the cache's own scheduler work (bounded; only decides which crash points exist)
+			w.gate.set(true)
 			start, seen, last, lastAt := time.Now(), hits.Load(), hits.Load(), time.Now()
 			for w.cacheFiles() > 0 {
 				now := hits.Load()
 				if now != last {
 					last, lastAt = now, time.Now()
 				}
-				if (now != seen && time.Since(lastAt) > 400*time.Millisecond) || time.Since(start) > 4*time.Second {
+				if (now != seen && time.Since(lastAt) > 1200*time.Millisecond) || time.Since(start) > 6*time.Second {
 					res = "partial"
 					break
 				}
 				time.Sleep(5 * time.Millisecond)
 			}
+			w.gate.set(false)
 			w.trace = append(w.trace, "bgflush -> "+res)
 		} else if err := w.apply(op); err != nil {
 			res = "err"
@@ -931,7 +991,7 @@ func vf09Continue(r *verifkit.Run, jb *vf09CrashJob, data string, journal []stri
 		f := strings.SplitN(journal[len(journal)-1], " ", 3)
 		if len(f) == 3 {
 			var m vf09Model
-			if json.Unmarshal([]byte(f[2]), &m) == nil && len(m.Req) == len(w.m.Req) && len(m.Proc) == len(w.m.Req) {
+			if json.Unmarshal([]byte(f[2]), &m) == nil && len(m.Req) == len(w.m.Req) && len(m.Proc) == len(w.m.Req) && len(m.Rec) == len(w.m.Req) {
 				w.m = m
 			}
 		}
@@ -1001,12 +1061,13 @@ func TestVerif_C09Crash(t *testing.T) {
 	r := verifkit.Start(t, "C09", "fault_enumeration")
 	defer r.Finish()
 	r.SetRule("history = seeded script: 3 objects put (cached, flushed, or both), removal requested by tombstone / drop / garbage mark, GC passes, background flush; case = (history, step point of shard put/delete or write-cache put/delete/flush, k-th hit) from a dry run, the child is SIGKILLed there; every crashed store is copied and continued 3 ways (flush, GC, epoch beyond every tombstone expiration, offline resync, restart in different orders) under the oracle; non-trivial = the child really died at the point; distinct = (history, point, k)")
+	r.Assume("the write-cache's background scheduler is held at its hand-off point except inside the 'bgflush' operation (accidental flush/delete interleavings belong to the race part)")
 	r.Assume("process-crash model (SIGKILL at the step boundary; no power loss); the oracle's memory up to the crash is journalled by the child after every completed operation; the operation cut by the crash counts as a removal request (tombstone/drop/mark) or as a new upload (put)")
 	base := os.Getenv("VERIF_SCRATCH")
 	if base == "" {
 		base = os.TempDir()
 	}
-	nHist := r.Pick(5, 60)
+	nHist := r.Pick(5, 30)
 	par := r.Pick(12, 12)
 	conts := vf09Continuations(20)
 	var hists []*vf09CrashHist
